@@ -359,6 +359,9 @@ func (r *Run) runPath(sol *Solver, prefix []int) {
 	}
 	r.mu.Lock()
 	r.paths++
+	if os.Getenv("VERIF_PROGRESS") != "" && r.paths%500 == 0 {
+		fmt.Fprintf(os.Stderr, "  .. %s paths=%d queue=%d feasQ=%d oblQ=%d\n", r.harness, r.paths, len(r.work), r.feasQ, r.oblQ)
+	}
 	r.pathEnds[reason]++
 	r.steps += int64(ex.steps)
 	for f := range ex.fnSeen {
